@@ -302,7 +302,9 @@ pub fn random_run(rng: &mut StdRng, n_events: usize) -> RunSpec {
                 }
                 let keep = rng.gen_range(1..=fr.len());
                 for &x in &fr[..keep] {
-                    acts.push(RAct::DataFrag { w, sn, fs: x, fc: 1, tot });
+                    // a DATAFRAG submessage may carry several consecutive fragments
+                    let fc = if rng.gen_bool(0.3) { rng.gen_range(1..=(tot - x + 1)) as u16 } else { 1 };
+                    acts.push(RAct::DataFrag { w, sn, fs: x, fc, tot });
                 }
             }
         } else if r < 65 {
